@@ -604,9 +604,22 @@ func (c *celValidator) convertMatchesFunction(fieldName string, args []*exprpb.E
 
 	str := c.convertASTToGo(args[0], fieldName)
 	pattern := c.convertASTToGo(args[1], fieldName)
-	c.checkPattern(args[1])
 
-	return fmt.Sprintf("regexp.MustCompile(%s).MatchString(%s)", pattern, str)
+	return c.matchesExpr(args[1], pattern, str)
+}
+
+// matchesExpr renders a CEL matches() call. A constant pattern has been compiled once
+// at generation time (checkPattern), so regexp.MustCompile cannot panic on it. Any other
+// pattern is only known at run time: it is compiled with regexp.Compile and an invalid
+// pattern matches nothing instead of panicking inside Validate.
+func (c *celValidator) matchesExpr(patternExpr *exprpb.Expr, pattern, str string) string {
+	c.checkPattern(patternExpr)
+
+	if patternExpr.GetConstExpr() != nil {
+		return fmt.Sprintf("regexp.MustCompile(%s).MatchString(%s)", pattern, str)
+	}
+
+	return fmt.Sprintf("func() bool { re, err := regexp.Compile(%s); if err != nil { return false }; return re.MatchString(%s) }()", pattern, str)
 }
 
 func (c *celValidator) convertStartsWithFunction(fieldName string, args []*exprpb.Expr) string {
@@ -748,9 +761,8 @@ func (c *celValidator) convertMethodCall(method string, target *exprpb.Expr, arg
 	case "matches":
 		if len(args) == 1 {
 			pattern := c.convertASTToGo(args[0], fieldName)
-			c.checkPattern(args[0])
 
-			return fmt.Sprintf("regexp.MustCompile(%s).MatchString(%s)", pattern, targetStr)
+			return c.matchesExpr(args[0], pattern, targetStr)
 		}
 	}
 
